@@ -2,6 +2,7 @@ import Gbo.Model.Connect
 import Gbo.Proofs.Provenance
 import Gbo.Proofs.SweepProvenance
 import Gbo.Props.C13
+import Gbo.Proofs.EndToEnd
 /-
   C04 — output geometry comes from the inputs.  Proved here: every ring the model hands to the result is
   closed (what `Polygon::new` / `LineString::close` guarantees) and on the shortcut path the rings are the
@@ -78,5 +79,38 @@ theorem C04_subdivide_provenance (ar : Arith) (cfg : Cfg) (a b : MPoly) (op : Op
     (h : subdivide ar cfg (fillQueue a b op).fq sb cb op = .ok sw) :
     PointsIn sw.arena (Gen ar (fun p => ∃ i, i < (fillQueue a b op).fq.arena.size ∧ (fillQueue a b op).fq.arena[i]!.point = p)) :=
   subdivide_provenance ar cfg _ sb cb op sw h (C13_links_initial a b op)
+
+/-- **No invented vertices, end to end.**  For every pair of operands, every operation and every arithmetic:
+    whenever `boolean_operation` returns through the sweep (not through the bounding-box shortcut, where the
+    operands' own rings are handed back: `C04_shortcut_rings_unchanged`), every vertex of every ring of every
+    returned polygon is *generated* from the operands' vertices (the points of the events `fill_queue`
+    created) by intersection points the routine computed for two segments between generated points and by the
+    one-ulp bump of `divide_segment`.  Chain: `fill_queue` links its pairs and queues valid indices; the sweep
+    keeps both (`subdivide_provenance`, `subdivide_sorted_valid`); `order_events` permutes a sub-list of the
+    swept events; `connect_edges` emits points of those events only (`connectEdges_points`); `Polygon::new`
+    only repeats the first vertex (`mem_closeRing`). -/
+theorem C04_vertices_generated (ar : Arith) (cfg : Cfg) (subject clipping : MPoly) (op : Op) (out : RunOut)
+    (h : booleanOperation ar cfg subject clipping op = .ok out) (hnt : out.trivial = false) :
+    ∀ poly, poly ∈ out.result → ∀ ring, ring ∈ poly.ext :: poly.holes → ∀ p, p ∈ ring →
+      Gen ar (InputVertex subject clipping op) p :=
+  booleanOperation_vertices ar cfg subject clipping op out (C13_fillQueue subject clipping op).1 h hnt
+
+/-- every ring returned on the sweep path is closed (first vertex = last vertex) or empty -/
+theorem C04_rings_closed (ar : Arith) (cfg : Cfg) (subject clipping : MPoly) (op : Op) (out : RunOut)
+    (h : booleanOperation ar cfg subject clipping op = .ok out) (hnt : out.trivial = false) :
+    ∀ poly, poly ∈ out.result → ∀ ring, ring ∈ poly.ext :: poly.holes → ring.head? = ring.getLast? := by
+  obtain ⟨_, _, _, _, _, _, _, hrings⟩ := booleanOperation_rings ar cfg subject clipping op out h hnt
+  intro poly hpoly ring hring
+  obtain ⟨c, _, hr⟩ := hrings poly hpoly ring hring
+  rw [hr]; exact C04_closeRing_closed _
+
+/-- non-vacuity: two crossing squares; the sweep path is taken and returns a ring -/
+example :
+    (match booleanOperation Arith.exact { budget := 1000 }
+        [{ ext := [⟨0, 0⟩, ⟨2, 0⟩, ⟨2, 2⟩, ⟨0, 2⟩, ⟨0, 0⟩], holes := [] }]
+        [{ ext := [⟨1, 1⟩, ⟨3, 1⟩, ⟨3, 3⟩, ⟨1, 3⟩, ⟨1, 1⟩], holes := [] }] .intersection with
+     | .ok out => out.trivial == false && out.result.length == 1
+     | .error _ => false) = true := by
+  decide +kernel
 
 end Gbo.Props
